@@ -646,6 +646,16 @@ fn diff_confined(pre_dev: &DevState, post_dev: &DevState, pre: &Decoded, post: &
         }
         let _ = bps;
     }
+    // mirrored volumes: every FAT copy equals the first one after the mutation
+    if g.mirrored() && g.nfats > 1 {
+        let c0 = post_dev.read_vec(g.fat_off(0), g.fat_bytes() as usize);
+        for c in 1..g.nfats {
+            if post_dev.read_vec(g.fat_off(c), g.fat_bytes() as usize) != c0 {
+                v.push((format!("C08/write/{}/fat-copies-differ", m.name), format!("FAT copy {c} differs from copy 0 after the mutation")));
+                break;
+            }
+        }
+    }
     // no new structural findings
     let pre_f: BTreeSet<(&String, &String)> = pre.findings.iter().map(|f| (&f.sig, &f.msg)).collect();
     for f in &post.findings {
